@@ -138,6 +138,7 @@ func C09(ctx *core.Ctx) {
 	ctx.Rule("C09.R1", "reply carries the request's context: every reply path writes WriteResponseHeader(fctx) with the fctx it was given", 4)
 	ctx.Rule("C09.R2", "server-side construction in ReadRequestHeader", 5)
 	ctx.Rule("C09.R3", "client-side: same FContext to prepareMessage/WriteRequestHeader and processReply/ReadResponseHeader; ReadResponseHeader merges all but _opid", 7)
+	c09Ownership(ctx, r)
 	ctx.Rule("C09.R4", "timeout encoding siblings agree on header key, unit and radix", 3)
 	opid := constString(r, "opIDHeader")
 	cid := constString(r, "cidHeader")
